@@ -135,6 +135,12 @@ def objective_forms(n):
         ("sum(v[0:6:2])", ("vsum", ("slice", v, 0, 6, 2))), ("sum(v[0:6])", ("vsum", ("slice", v, 0, 6, None))),
         ("sum(A[0,0:2])", ("vsum", ("mrowpart", M, 0, (0, 2, None)))), ("sum(A[1:3,1])", ("vsum", ("mcolpart", M, 1, (1, 3, None)))),
         ("c@v[3:9:5]", ("lincomb", [1.0, 2.0], ("slice", v, 3, 9, 5))),
+        # sub-matrix views (symmetric: shared entries; plain) used as a whole
+        ("sum(S[0:2,1:3])", ("msum", ("mslice", Sm, (0, 2, None), (1, 3, None)))), ("fro(S[0:2,1:3])", ("fro", ("mslice", Sm, (0, 2, None), (1, 3, None)))),
+        ("sum(S[0:2,0:2])", ("msum", ("mslice", Sm, (0, 2, None), (0, 2, None)))), ("sum(S[::-1,:].T)", ("msum", ("mT", ("mslice", Sm, (None, None, -1), (None, None, None))))),
+        ("fro(S[1:3,0:2])", ("fro", ("mslice", Sm, (1, 3, None), (0, 2, None)))), ("sum(S[0:1,:])", ("msum", ("mslice", Sm, (0, 1, None), (None, None, None)))),
+        ("sum(A[0:2,1:3])", ("msum", ("mslice", M, (0, 2, None), (1, 3, None)))), ("fro(A[::2,::-1].T)", ("fro", ("mT", ("mslice", M, (None, None, 2), (None, None, -1))))),
+        ("sum(S[0:2,1:3]*S[1:3,0:2])", ("msum", ("mbin", "*", ("mslice", Sm, (0, 2, None), (1, 3, None)), ("mslice", Sm, (1, 3, None), (0, 2, None))))),
     ]
 
 
